@@ -640,7 +640,8 @@ class Renderer:
         return lines
 
     # ---- whole module ----------------------------------------------------------------------
-    def module(self, qualifiers=("value",), ct_patterns=(), with_bw=True, with_forms=True, reduced_forms=False):
+    def module(self, qualifiers=("value",), ct_patterns=(), with_bw=True, with_forms=True, reduced_forms=False,
+               with_snapshot=False):
         T = self.T
         w = L.width(T)
         vs = L.views(T)
@@ -814,6 +815,52 @@ class Renderer:
                         body.append("")
         else:
             body.append("AD_NFORMS = 0")
+
+        # value snapshot: to_bits / Serialized of a Variable taken BEFORE the variable is assigned again
+        if with_snapshot and not is_ser:
+            body.append("HAS_SNAPSHOT = True")
+            body.append("def snapshot_py(A, B):")
+            body.append('    """plain Python (compile time) evaluation; returns (bits kept, round trip of kept bits, bits after)"""')
+            body.append("    v = std.Variable[TYPE](std.from_bits[TYPE](A))")
+            body.append("    kept = std.to_bits(v)")
+            body.append("    v @= std.from_bits[TYPE](B)")
+            body.append("    return kept, std.to_bits(std.from_bits[TYPE](kept)), std.to_bits(v)")
+            body.append("")
+            body.append("def snapshot_ser_py(A, B):")
+            body.append("    v = std.Variable[TYPE](std.from_bits[TYPE](A))")
+            body.append("    ser = std.Serialized[TYPE](v)")
+            body.append("    v @= std.from_bits[TYPE](B)")
+            body.append("    return ser.bits(), std.to_bits(ser.value()), std.to_bits(v)")
+            body.append("")
+            for ename, use_ser in (("SN", False), ("SNS", True)):
+                body.append(f"class {ename}(cohdl.Entity):")
+                body.append(f"    a = Port.input(BitVector[{w}])")
+                body.append(f"    b = Port.input(BitVector[{w}])")
+                body.append(f"    o_kept = Port.output(BitVector[{w}])")
+                body.append(f"    o_rt = Port.output(BitVector[{w}])")
+                body.append(f"    o_new = Port.output(BitVector[{w}])")
+                body.append("")
+                body.append("    def architecture(self):")
+                body.append("        v = std.Variable[TYPE]()")
+                body.append("        @std.sequential")
+                body.append("        def proc():")
+                body.append("            nonlocal v")
+                body.append("            v @= std.from_bits[TYPE](self.a)")
+                if use_ser:
+                    body.append("            ser = std.Serialized[TYPE](v)")
+                else:
+                    body.append("            kept = std.to_bits(v)")
+                body.append("            v @= std.from_bits[TYPE](self.b)")
+                if use_ser:
+                    body.append("            self.o_kept <<= ser.bits()")
+                    body.append("            self.o_rt <<= std.to_bits(ser.value())")
+                else:
+                    body.append("            self.o_kept <<= kept")
+                    body.append("            self.o_rt <<= std.to_bits(std.from_bits[TYPE](kept))")
+                body.append("            self.o_new <<= std.to_bits(v)")
+                body.append("")
+        else:
+            body.append("HAS_SNAPSHOT = False")
 
         # constants inside a synthesisable context
         if ct_patterns:
